@@ -200,10 +200,6 @@ func (h *c03H) genPhase() {
 	for _, s := range snips {
 		fam[s.Fam]++
 	}
-	for k, n := range fam {
-		res.Count("snippets_"+k, n)
-	}
-	res.Count("snippets_generated", int64(len(snips)))
 	root := filepath.Join(h.scratch, "gen")
 	os.MkdirAll(root, 0o755)
 	os.WriteFile(filepath.Join(root, "go.mod"), []byte(c03GenMod), 0o644)
@@ -212,7 +208,17 @@ func (h *c03H) genPhase() {
 		res.Note("export data of std for the in-process IR dump: %v", err)
 		res.NotExhaustive("no export data")
 	}
+	if os.Getenv("C03_GEN_ONLY") == "api" { // development aid: only the API-trigger families
+		snips = nil
+		res.NotExhaustive("C03_GEN_ONLY=api")
+	}
 	pkgs := c03Pack(snips, 200, "p")
+	// the API-trigger families import more of std: their own packages
+	api := c03APISnippets(vx.Thorough())
+	for _, s := range api {
+		fam[s.Fam]++
+	}
+	pkgs = append(pkgs, c03Pack(api, 200, "q")...)
 	tIn := time.Now()
 
 	// in-process: type-check, drop what does not compile (generator bugs), measure IR coverage
@@ -301,6 +307,10 @@ func (h *c03H) genPhase() {
 	res.Note("IR instruction kinds reached by generated code (%d of %d declared): %s; not reached: %v (StringLookup is never emitted by the builder)", len(kinds), len(c03IRKinds), strings.Join(kinds, " "), missing)
 	res.Note("builtins reached as IR calls: %s", strings.Join(builtins, " "))
 
+	for k, n := range fam {
+		res.Count("snippets_"+k, n)
+	}
+	res.Count("snippets_generated", int64(len(snips)+len(api)))
 	res.Count("wall_ms_gen_inprocess", time.Since(tIn).Milliseconds())
 	tC := time.Now()
 	// the toolchain decides what is in scope
